@@ -1347,6 +1347,8 @@ const CORPUS: &[(&str, &[u8])] = &[
 	("misc", b".addr 0; .global a; .du8 (a << 1) << 2; .const a, 1;"),
 	("misc", b".addr 0; .global a; .du8 1 - -a; .const a, 1;"),
 	("misc", b".addr 0; .global a; .du8 (a + -9223372036854775807) + -9223372036854775807; .const a, 1;"),
+	// `.align` whose padding (~4 GiB) cannot fit: the capacity check comes before any padding is built (model: from the number)
+	("misc", b".addr 0xFFFFFFFD; .du8 1; .align 0xFFFFFFFB;"),
 ];
 
 /// Constructs whose diagnostic path no generated program reached (found with tools/coverage.sh). Each entry is a whole
